@@ -41,17 +41,19 @@ MAX_LATE_RETRIES = 2         # executables whose time-out re-runs may still star
 MAX_FAILURES = 60
 
 
-def builds_for(tier):
-    """[(backend label, compile flags, [DORA_FLAGS values])].  Non-default collectors only with the optimizing
-    back end: the baseline one aborts in the write-barrier slow path with them (`not implemented`,
-    gc.rs to_swiper) - a defect that belongs to C03."""
+def builds_for(tier, index=0):
+    """[(backend label, compile flags, [DORA_FLAGS values])] for program number `index`.
+    Non-default collectors only with the optimizing back end: the baseline one aborts in the write-barrier
+    slow path with them (`not implemented`, gc.rs to_swiper) - a defect that belongs to C03.
+    quick: a collection at every allocation (`--gc-stress`, 5 s alone on an idle machine, 25 s and more with
+    8 of them in parallel on a busy one) runs with ONE back end per program, alternating."""
     if tier == "thorough":
         return [("cannon", ["--cannon"], ["", "--gc-stress", "--gc-worker 2"]),
                 ("boots", [], ["", "--gc-stress", "--gc-worker 2"]),
                 ("boots-gc-copy", ["--gc=copy"], ["", "--gc-stress"]),
                 ("boots-gc-sweep", ["--gc=sweep"], [""])]
-    return [("cannon", ["--cannon"], ["", "--gc-stress"]),
-            ("boots", [], ["", "--gc-stress"])]
+    return [("cannon", ["--cannon"], ["", "--gc-stress"] if index % 2 == 0 else [""]),
+            ("boots", [], ["", "--gc-stress"] if index % 2 == 1 else [""])]
 
 
 # --------------------------------------------------------------------------------------------- tool chain
@@ -172,7 +174,6 @@ def run_workloads(ctx, tier, deadline_s):
     seed = str(ctx.seed)
     n_prog = N_PROGRAMS.get(tier, N_PROGRAMS["quick"])
     timeout = RUN_TIMEOUT.get(tier, 60)
-    builds = builds_for(tier)
     tc = toolchain()
     work = os.path.join(C.BUILD, "tmp", "c09w_%d" % os.getpid())
     shutil.rmtree(work, ignore_errors=True)
@@ -297,7 +298,8 @@ def run_workloads(ctx, tier, deadline_s):
             except OSError:
                 pass
 
-    jobs = [(p, b) for p in programs for b in builds]
+    jobs = [(p, b) for p in programs for b in builds_for(tier, p[0])]
+    jobs.sort(key=lambda j: -len(j[1][2]))        # the longest jobs first (stable): shorter tail
     try:
         with cf.ThreadPoolExecutor(max_workers=WORKERS) as ex:
             list(ex.map(task, jobs))
@@ -333,8 +335,8 @@ def run_workloads(ctx, tier, deadline_s):
                                  replay=dict(replay_of(prog, label, cflags, flags, attempts[-1]), timeout_s=timeout,
                                              cpu_s_at_kill=cpus),
                                  text="%s program %d (%s, DORA_FLAGS='%s') did not end within %d s in 3 runs "
-                                      "(2 of them alone; processor seconds used when killed: %s; a program that "
-                                      "sleeps is blocked for good, one that burns time is spinning); expected %r"
+                                      "(2 of them alone; processor seconds used when killed: %s - start-up alone "
+                                      "takes about 1 s, so a small number means blocked, a large one spinning); expected %r"
                                       % (fam, i, label, flags, timeout, cpus, exp)))
             else:
                 st["flaky_timeouts"] += 1
@@ -358,6 +360,7 @@ def run_workloads(ctx, tier, deadline_s):
                 flaky_timeouts=st["flaky_timeouts"], flaky=flaky[:10], unresolved_timeouts=st["unresolved_timeouts"],
                 compiled=st["compiled"], compile_timeouts=st["compile_timeouts"],
                 failures_dropped=st["failures_dropped"],
-                configs=[dict(backend=b[0], compile_flags=b[1], dora_flags=b[2]) for b in builds],
+                configs=[dict(backend=b[0], compile_flags=b[1], dora_flags=b[2]) for b in builds_for(tier, 0)],
+                gc_stress_alternates_between_backends=(tier != "thorough"),
                 compile_s=stats(compile_times), run_s=dict((k, stats(v)) for k, v in run_times.items()),
                 toolchain=tc["hash"], seed=seed, tier=tier, run_timeout_s=timeout)
